@@ -595,6 +595,15 @@ func writeReplayDir(root, repo, dir string, r *jobRun, cases []replayCase) (over
 		os.WriteFile(real, []byte(rewriteClock(string(src))), 0o644)
 		replace[filepath.Join(repo, cf)] = real
 	}
+	// keep the overlay relocatable: `gosym replay` rebuilds it for the repo root in use then
+	rel := map[string]string{}
+	for virt, real := range replace {
+		if rp, err := filepath.Rel(repo, virt); err == nil {
+			rel[rp] = filepath.Base(real)
+		}
+	}
+	relb, _ := json.MarshalIndent(map[string]any{"files": rel, "clock_files": r.job.ClockFiles}, "", " ")
+	os.WriteFile(filepath.Join(dir, "overlay.rel.json"), relb, 0o644)
 	ovb, _ := json.MarshalIndent(map[string]any{"Replace": replace}, "", " ")
 	overlayPath = filepath.Join(dir, "overlay.json")
 	os.WriteFile(overlayPath, ovb, 0o644)
@@ -697,6 +706,28 @@ func replayMain(args []string) int {
 	if err := readJSON(filepath.Join(dir, "meta.json"), &meta); err != nil {
 		fmt.Println("INFRA:", err)
 		return 2
+	}
+	// rebuild the overlay for the repository root in use now (the directory may have been written
+	// for a scratch copy); clock-rewritten sources are regenerated from the current tree
+	var relov struct {
+		Files      map[string]string `json:"files"`
+		ClockFiles []string          `json:"clock_files"`
+	}
+	if err := readJSON(filepath.Join(dir, "overlay.rel.json"), &relov); err == nil {
+		repo := repoRoot()
+		replace := map[string]string{}
+		for rp, base := range relov.Files {
+			replace[filepath.Join(repo, rp)] = filepath.Join(dir, base)
+		}
+		for _, cf := range relov.ClockFiles {
+			if src, err := os.ReadFile(filepath.Join(repo, cf)); err == nil {
+				real := filepath.Join(dir, "clock_"+strings.ReplaceAll(cf, "/", "_"))
+				os.WriteFile(real, []byte(rewriteClock(string(src))), 0o644)
+				replace[filepath.Join(repo, cf)] = real
+			}
+		}
+		ovb, _ := json.MarshalIndent(map[string]any{"Replace": replace}, "", " ")
+		os.WriteFile(filepath.Join(dir, "overlay.json"), ovb, 0o644)
 	}
 	out, _ := runGoTest(repoRoot(), meta.Pkg, filepath.Join(dir, "overlay.json"), filepath.Join(dir, "replay.json"))
 	fmt.Println(out)
